@@ -1,5 +1,5 @@
 (* C03Run.v — compares Wire.v (sig_read, refl_enc, refl_dec) with what the implementation did. *)
-From QV Require Import Wire SigSimple.
+From QV Require Import Wire ParseOpt.
 From Coq Require Import String.
 Local Open Scope N_scope.
 
@@ -49,7 +49,7 @@ Section WithCfg.
 
   Definition rd_ok (k : c03case) : bool :=
     let input := unhex (k_input k) in
-    match sig_read parse_simple c (fuel_of input) (k_ty k) input with
+    match sig_read parse_opt c (fuel_of input) (k_ty k) input with
     | ROk (d, rest) => (k_rd k =? 0) && eqb_bytes d (unhex (k_rd_data k)) && (N.of_nat (List.length rest) =? k_rd_left k)
     | r => code r =? k_rd k
     end.
